@@ -74,6 +74,8 @@ type shPack struct {
 }
 
 var shPacks = []shPack{
+	// normalisation: two marks of the same combining class, one of another class, a precomposed letter
+	{"Latn", []rune{'a', 'e', 0x0301, 0x0305, 0x0323, 0x00E1}},
 	{"Hang", []rune{0x1100, 0x1161, 0x11A8, 0xAC00, 0xAC01, 0x302E, 0x302F}},
 	{"Arab", []rune{0x0628, 0x0627, 0x0644, 0x064E, 0x0651, 0x0640, 0x0661, 0x0626, 0x06DD}},
 	{"Hebr", []rune{0x05D0, 0x05BC, 0x05B7, 0x05C1, 0x05E9, 0x05D5}},
@@ -544,6 +546,9 @@ func (e *shEnv) font(sf *shFont, maxLen int, full bool) {
 		packLen := maxLen
 		if packLen < 2 {
 			packLen = 2
+		}
+		if len(sf.file.Data) > 64<<10 && len(sf.file.Data) < 4<<20 && packLen < 3 {
+			packLen = 3 // real text fonts: sequences like base + mark + mark need three runes
 		}
 		enumTexts(al, 1, packLen, func(idx int, t []rune) bool {
 			if r.Expired() {
